@@ -74,6 +74,7 @@ static bool contactFree(const Shape& sh) {
     std::vector<S> segs; std::set<std::pair<double, double>> seen; int comp = 0;
     auto addSeq = [&](const Seq& s) -> bool {
         bool closed = s.size() > 1 && s.front().x == s.back().x && s.front().y == s.back().y;
+        if (closed && s.size() < 4) return false;
         size_t nv = closed ? s.size() - 1 : s.size();
         for (size_t i = 0; i < nv; i++) if (!seen.insert({s[i].x + 0.0, s[i].y + 0.0}).second) return false;
         int n = (int) s.size() - 1;
@@ -251,7 +252,7 @@ static bool genValid(Rng& r, Out& out, int kind, Built& b, bool polysOnly) {
         if (!ok || !contactFree(b.shape)) { out.count("gen_rejected"); continue; }
         b.hasPoly = anyPoly;
         if (k == 1 && r.chance(80)) b.tok = parts[0];
-        else if (anyPoly && !anyLine) b.tok = r.chance(80) ? wrapMulti("MY", parts) : wrapMulti("GC", parts);
+        else if (anyPoly && !anyLine) b.tok = (polysOnly || r.chance(80)) ? wrapMulti("MY", parts) : wrapMulti("GC", parts);
         else if (anyLine && !anyPoly) b.tok = r.chance(80) ? wrapMulti("ML", parts) : wrapMulti("GC", parts);
         else b.tok = wrapMulti("GC", parts);
         out.count(std::string("geom_") + b.tok.substr(0, b.tok.find(' ')));
@@ -276,7 +277,10 @@ static void genDP(Rng& r, Out& out, Built& b) {
     else if (form < 80) { std::vector<std::string> parts; int k = r.range(1, 3); for (int i = 0; i < k; i++) { Seq q; mkLine(q); b.shape.lines.push_back(q); parts.push_back(lineTok(q)); } b.tok = wrapMulti("ML", parts); out.count("geom_ML"); }
     else if (form < 92) { std::vector<std::string> parts; int k = r.range(1, 3); for (int i = 0; i < k; i++) { Poly p; if (mkPoly(p, (long) i * (r.chance(85) ? 200 : 40))) { b.shape.polys.push_back(p); parts.push_back(polyTok(p)); } }
                           b.tok = wrapMulti("MY", parts); b.hasPoly = true; out.count("geom_MY"); }
-    else { std::vector<std::string> parts; int k = r.range(1, 3); for (int i = 0; i < k; i++) { if (r.chance(50)) { Seq q; mkLine(q); b.shape.lines.push_back(q); parts.push_back(lineTok(q)); } else { Poly p; if (mkPoly(p, (long) i * 200)) { b.shape.polys.push_back(p); parts.push_back(polyTok(p)); b.hasPoly = true; } } }
+    else { std::vector<std::string> parts; int k = r.range(1, 3); for (int i = 0; i < k; i++) {
+               if (r.chance(12)) { V v = apply(t, r.range(-40, 40), r.range(-40, 40)); parts.push_back("P xy 1 " + hex(v.x) + " " + hex(v.y)); out.count("gc_point"); continue; }
+               if (r.chance(8)) { parts.push_back(r.chance(50) ? "L xy 0" : "Y 1 xy 0"); out.count("gc_empty_component"); continue; }
+               if (r.chance(50)) { Seq q; mkLine(q); b.shape.lines.push_back(q); parts.push_back(lineTok(q)); } else { Poly p; if (mkPoly(p, (long) i * 200)) { b.shape.polys.push_back(p); parts.push_back(polyTok(p)); b.hasPoly = true; } } }
            b.tok = wrapMulti("GC", parts); out.count("geom_GC"); }
 }
 
@@ -330,7 +334,8 @@ static bool roughEqualsResult(const std::string& geomTok, double tol, const std:
         } else if (x->getGeometryTypeId() == geos::geom::GEOS_LINESTRING) {
             auto q = geos::simplify::DouglasPeuckerLineSimplifier::simplify(*static_cast<const LineString*>(x)->getCoordinatesRO(), tol, true); o += " L"; flatSeq(q.get(), o);
         } else if (x->getGeometryTypeId() == geos::geom::GEOS_LINEARRING) { o += " ?"; }
-        else for (std::size_t i = 0; i < x->getNumGeometries(); i++) rec(x->getGeometryN(i));
+        else if (x->getGeometryTypeId() == geos::geom::GEOS_POINT) { auto cs = static_cast<const Point*>(x)->getCoordinatesRO(); o += " P " + hex(cs->getX(0)) + " " + hex(cs->getY(0)); }
+        else if (x->isCollection()) for (std::size_t i = 0; i < x->getNumGeometries(); i++) rec(x->getGeometryN(i));
     };
     rec(g.get());
     std::string f = o.empty() ? "EMPTY" : o.substr(1);
@@ -414,10 +419,18 @@ static bool genCoverage(GEOSContextHandle_t h, Rng& r, Out& out, std::string& to
         return (side == 0 || side == 3) ? at[x][y][0] : at[x][y][1];
     };
     int mergePct = r.range(10, 60);
+    int ix = -1, iy = -1;                                   // forced island: the 8 cells around (ix,iy) become one region
+    if (cg.W >= 3 && cg.H >= 3 && r.chance(35)) { ix = r.range(1, cg.W - 2); iy = r.range(1, cg.H - 2); out.count("cov_forced_island"); }
+    auto isIsl = [&](int x, int y) { return x == ix && y == iy; };
     for (int x = 0; x < cg.W; x++) for (int y = 0; y < cg.H; y++) {
-        if (x + 1 < cg.W && r.chance(mergePct)) uf[find(sideCell(x, y, 1))] = find(sideCell(x + 1, y, 3));
-        if (y + 1 < cg.H && r.chance(mergePct)) uf[find(sideCell(x, y, 2))] = find(sideCell(x, y + 1, 0));
+        if (x + 1 < cg.W && !isIsl(x, y) && !isIsl(x + 1, y) && r.chance(mergePct)) uf[find(sideCell(x, y, 1))] = find(sideCell(x + 1, y, 3));
+        if (y + 1 < cg.H && !isIsl(x, y) && !isIsl(x, y + 1) && r.chance(mergePct)) uf[find(sideCell(x, y, 2))] = find(sideCell(x, y + 1, 0));
         if (diag[x][y] && r.chance(15)) uf[find(at[x][y][0])] = find(at[x][y][1]);
+    }
+    if (ix >= 0) {
+        static const int ring8[8][2] = {{-1,-1},{0,-1},{1,-1},{1,0},{1,1},{0,1},{-1,1},{-1,0}};
+        int first = -1;
+        for (auto& d : ring8) { int x = ix + d[0], y = iy + d[1]; for (int c : at[x][y]) { if (first < 0) first = c; uf[find(c)] = find(first); } }
     }
     std::map<int, std::vector<int>> regions; for (size_t i = 0; i < cells.size(); i++) regions[find((int) i)].push_back((int) i);
     int gapPct = r.chance(50) ? 0 : 15;
@@ -436,6 +449,7 @@ static bool genCoverage(GEOSContextHandle_t h, Rng& r, Out& out, std::string& to
             auto p = dynamic_cast<const geos::geom::Polygon*>(ug->getGeometryN(i)); if (!p || p->isEmpty()) { GEOSGeom_destroy_r(h, u); return false; }
             Poly q; auto add = [&](const geos::geom::LinearRing* lr) { Seq s; auto cs = lr->getCoordinatesRO(); for (std::size_t j = 0; j < cs->size(); j++) s.push_back(V{cs->getX(j), cs->getY(j)}); q.rings.push_back(s); };
             add(p->getExteriorRing()); for (std::size_t j = 0; j < p->getNumInteriorRing(); j++) add(p->getInteriorRingN(j));
+            for (auto& rg : q.rings) { std::set<std::pair<double, double>> sv; for (size_t j = 0; j + 1 < rg.size(); j++) if (!sv.insert({rg[j].x, rg[j].y}).second) { GEOSGeom_destroy_r(h, u); out.count("cov_rejected_self_touch"); return false; } }
             if (q.rings.size() > 1) nIsl++;
             shape.polys.push_back(q); parts.push_back(polyTok(q));
         }
